@@ -186,6 +186,9 @@ def _run_case(sub, case, ctx, known):
     try:
         sub.check(case, ctx)
     except Violation as v:
+        if v.sig.endswith('@?') and any(t in v.sig for t in ('NameError', 'UnboundLocalError', 'ImportError', 'ModuleNotFoundError')):
+            # no frame of the library in the traceback and an error only harness code can make: not a finding
+            raise HarnessAbort(f'harness bug reported as crash: {v.sig}: {v.msg}'[:500])
         if v.sig in known:
             ctx.known_hits[v.sig] += 1
             return ('known', v.sig)
